@@ -264,6 +264,24 @@ def cross_reference_docs():
         c.wasEndedBy(EX["a2"], EX["t"], EX["a1"], None, EX["en"])
         c.wasInformedBy(EX["a2"], EX["a1"], EX["inf"], {EX["k"]: 2})
         yield ("start, end and communication between the same activities%s" % (" in a bundle" if in_bundle else ""), d)
+    # bundles that hold plain binary relations only (their elements are declared at document level or in another bundle)
+    for which in (("der",), ("used",), ("attr",), ("der", "used", "attr"), ("inf", "spec")):
+        d = M.ProvDocument(); d.add_namespace(EX)
+        d.entity(EX["e1"]); d.entity(EX["e2"]); d.activity(EX["a"]); d.activity(EX["a2"]); d.agent(EX["ag"])
+        b1 = d.bundle(EX["only-relations"])
+        if "der" in which:
+            b1.wasDerivedFrom(EX["e2"], EX["e1"])
+        if "used" in which:
+            b1.used(EX["a"], EX["e1"])
+        if "attr" in which:
+            b1.wasAttributedTo(EX["e2"], EX["ag"])
+        if "inf" in which:
+            b1.wasInformedBy(EX["a2"], EX["a"])
+        if "spec" in which:
+            b1.specializationOf(EX["e2"], EX["e1"])
+        b2 = d.bundle(EX["with-element"])
+        b2.entity(EX["e3"]); b2.wasDerivedFrom(EX["e3"], EX["e1"])
+        yield ("a bundle holding only the plain relations %s" % "+".join(which), d)
 
 
 def rel_descriptors(d):
